@@ -127,7 +127,8 @@ type c18env struct {
 }
 
 func syntaxRefusal(err string) bool {
-	return strings.Contains(err, "invalid domain name length") || strings.Contains(err, "invalid domain fragment")
+	// (bytes that are no UTF-8 make the call fault inside the VM before the contract's own checks: refused all the same)
+	return strings.Contains(err, "invalid domain name length") || strings.Contains(err, "invalid domain fragment") || strings.Contains(err, "not UTF-8")
 }
 
 // judgeName classifies s through isAvailable / register / registerTLD test invocations.
@@ -311,6 +312,13 @@ func runC18(b *runner.Batch) {
 			boundary = append(boundary, strings.Join(ls, "."))
 		}
 	}
+	// every byte value at the first, an inner and the last position of a label of an otherwise valid name (the
+	// reduced alphabet of the exhaustive part leaves out the neighbours of the accepted ranges in the code table:
+	// ',' '/' ':' '@' '[' '`' '{'; seeded change C18-9 lets '/' through inside a label)
+	for c := 0; c < 256; c++ {
+		ch := string([]byte{byte(c)})
+		boundary = append(boundary, "ab."+ch+"xy.com", "ab.x"+ch+"y.com", "ab.xy"+ch+".com", "x"+ch+"y")
+	}
 	boundary = append(boundary, strings.Repeat("a.", 126)+"com", strings.Repeat("a.", 127)+"com", strings.Repeat("a.", 128)+"com", strings.Repeat("a.", 300)+"com")
 	if k == 0 {
 		for _, s := range boundary {
@@ -348,6 +356,18 @@ func runC18(b *runner.Batch) {
 		for _, s := range []string{"1.2.3", "1.2.3.4.5", "1.2.3.4.", ".1.2.3.4", "1..2.3", "1.2.3.4 ", "01.2.3.4", "1.2.3.04", "1.2.3.4/8", "1,2,3,4", "١.٢.٣.٤", "0.1.2.3", "10.1.2.3", "100.64.1.1", "127.0.0.1", "169.254.1.1", "172.15.1.1", "172.16.1.1", "172.31.1.1", "172.32.1.1", "192.167.1.1", "192.168.1.1", "192.169.1.1", "223.255.255.254", "224.0.0.1", "255.255.255.255", "1.2.3.0", "1.2.3.255", "8.8.8.8", "+1.2.3.4", "1.+2.3.4", "1.2.3.+4", "-1.2.3.4"} {
 			c.judgeA(s, "v4-shape")
 		}
+		// every byte value substituted for, and inserted at, every position of a valid address (the neighbours of the
+		// digits in the code table are '/' and ':')
+		for _, base := range []string{"93.184.216.34", "8.8.4.4"} {
+			for pos := 0; pos <= len(base); pos++ {
+				for ch := 0; ch < 256; ch++ {
+					if pos < len(base) {
+						c.judgeA(base[:pos]+string([]byte{byte(ch)})+base[pos+1:], "v4-byte-substituted")
+					}
+					c.judgeA(base[:pos]+string([]byte{byte(ch)})+base[pos:], "v4-byte-inserted")
+				}
+			}
+		}
 		b.Hit("v4-mutation-classes")
 	}
 	if k == 2 {
@@ -359,6 +379,17 @@ func runC18(b *runner.Batch) {
 					g := append([]string{}, base...)
 					g[pos] = ed
 					c.judgeAAAA(strings.Join(g, ":"), fmt.Sprintf("group%d-edit", pos))
+				}
+			}
+			// every byte value substituted for, and inserted at, every position (neighbours of the hexadecimal digits:
+			// '/' ':' '@' 'G' '`' 'g')
+			full := strings.Join(base, ":")
+			for pos := 0; pos <= len(full); pos++ {
+				for ch := 0; ch < 256; ch++ {
+					if pos < len(full) {
+						c.judgeAAAA(full[:pos]+string([]byte{byte(ch)})+full[pos+1:], "v6-byte-substituted")
+					}
+					c.judgeAAAA(full[:pos]+string([]byte{byte(ch)})+full[pos:], "v6-byte-inserted")
 				}
 			}
 			// every :: position and width
